@@ -51,6 +51,7 @@ func (q pathQuery) find(from ipos) (bool, []ssa.Instruction) {
 	type state struct {
 		b    *ssa.BasicBlock
 		prev *state
+		via  *ssa.BasicBlock
 	}
 	// scan the remainder of the start block
 	scan := func(b *ssa.BasicBlock, start int) (hit ssa.Instruction, stopped bool) {
@@ -70,20 +71,26 @@ func (q pathQuery) find(from ipos) (bool, []ssa.Instruction) {
 	} else if stopped {
 		return false, nil
 	}
-	visited := map[*ssa.BasicBlock]bool{}
+	type vkey struct{ b, pred *ssa.BasicBlock }
+	visited := map[vkey]bool{}
 	var queue []*state
-	push := func(prev *state, from *ssa.BasicBlock) {
+	push := func(prev *state, from *ssa.BasicBlock, via *ssa.BasicBlock) {
+		forced := forcedSucc(from, via)
 		for si, s := range from.Succs {
 			if q.blocked != nil && q.blocked[edgeKey{from, si}] {
 				continue
 			}
-			if !visited[s] {
-				visited[s] = true
-				queue = append(queue, &state{s, prev})
+			if forced >= 0 && si != forced {
+				continue // branch decided by a constant phi edge for the predecessor we came from
+			}
+			k := vkey{s, from}
+			if !visited[k] {
+				visited[k] = true
+				queue = append(queue, &state{s, prev, from})
 			}
 		}
 	}
-	push(&state{from.b, nil}, from.b)
+	push(&state{from.b, nil, nil}, from.b, nil)
 	for len(queue) > 0 {
 		st := queue[0]
 		queue = queue[1:]
@@ -105,7 +112,7 @@ func (q pathQuery) find(from ipos) (bool, []ssa.Instruction) {
 		if stopped {
 			continue
 		}
-		push(st, st.b)
+		push(st, st.b, st.via)
 	}
 	return false, nil
 }
@@ -403,4 +410,70 @@ func fnName(fn *ssa.Function) string {
 		return fnName(fn.Parent()) + "$" + fmt.Sprint(fn.Name())
 	}
 	return fn.String()
+}
+
+// forcedSucc: if block b ends in `if φ` where φ is a phi of b whose edge for predecessor `via` is a
+// boolean constant, the branch taken is known (correlated flags such as `corrupted`, `snapshotDone`).
+func forcedSucc(b, via *ssa.BasicBlock) int {
+	if via == nil || len(b.Instrs) == 0 {
+		return -1
+	}
+	iff, ok := b.Instrs[len(b.Instrs)-1].(*ssa.If)
+	if !ok {
+		return -1
+	}
+	cond := iff.Cond
+	neg := false
+	if u, ok := cond.(*ssa.UnOp); ok && u.Op == token.NOT {
+		cond, neg = u.X, true
+	}
+	phi, ok := cond.(*ssa.Phi)
+	if !ok || phi.Block() != b {
+		return -1
+	}
+	for i, p := range b.Preds {
+		if p != via {
+			continue
+		}
+		c, ok := phi.Edges[i].(*ssa.Const)
+		if !ok || c.Value == nil || c.Value.Kind() != constant.Bool {
+			return -1
+		}
+		v := constant.BoolVal(c.Value)
+		if neg {
+			v = !v
+		}
+		if v {
+			return 0
+		}
+		return 1
+	}
+	return -1
+}
+
+// retVal resolves the i-th returned value of rt. Functions with defers spill results into a local
+// (`*t0 = v; rundefers; t = *t0; return t`); the stored value is what is returned.
+func retVal(rt *ssa.Return, i int) ssa.Value {
+	v := rt.Results[i]
+	ld, ok := v.(*ssa.UnOp)
+	if !ok || ld.Op != token.MUL {
+		return v
+	}
+	al, ok := ld.X.(*ssa.Alloc)
+	if !ok {
+		return v
+	}
+	var last ssa.Value
+	for _, in := range rt.Block().Instrs {
+		if in == ssa.Instruction(ld) {
+			break
+		}
+		if st, ok := in.(*ssa.Store); ok && st.Addr == al {
+			last = st.Val
+		}
+	}
+	if last != nil {
+		return last
+	}
+	return v
 }
